@@ -1,10 +1,10 @@
 #!/bin/sh
-# MANIFEST.setup_cmd: build the Lean project (models, lemmas, property theorems) and the native
-# model driver from files on disk only; offline.
+# MANIFEST.setup_cmd: regenerate the extracted kernels from /repo, build the Lean library, the
+# equivalence modules of the extraction tie and the native model driver (offline; no fetches).
 set -e
 cd "$(dirname "$0")/.."
+/venv/bin/python harness/extract.py
 cd lean
-lake build PysparklingVerif driver
-cd ..
-/venv/bin/python -m compileall -q harness >/dev/null 2>&1 || true
-echo setup-ok
+lake build PysparklingVerif driver \
+  PysparklingVerif.Extracted.EquivC07 PysparklingVerif.Extracted.EquivC14 \
+  PysparklingVerif.Extracted.EquivC17 PysparklingVerif.Extracted.EquivC18
